@@ -799,6 +799,134 @@ func runC03(c *core.Ctx) core.Meta {
 		}
 	}
 
+	// ---------------- R03.10 bitwise instructions: truth table per bit ----------------
+	st10 := c.Rule("R03.10", "every bitwise instruction handler (and / or / xor / andn2 / orn2 / nand / nor / xnor / not, incl. the …_saveexec forms, tied to its name through decode table -> dispatch switch -> callee) computes, bit by bit, the boolean function its mnemonic names: the expression written to the destination (or to EXEC) is evaluated over both values of a bit of S0 and of S1 (EXEC for the saveexec forms) and compared with the mnemonic's truth table", 20)
+	bitName := regexp.MustCompile(`^[sv]_(and|or|xor|andn2|orn2|nand|nor|xnor|not)(_saveexec)?_b(32|64)(_e32|_e64)?$`)
+	bitFn := map[string]func(a, b int) int{
+		"and": func(a, b int) int { return a & b }, "or": func(a, b int) int { return a | b }, "xor": func(a, b int) int { return a ^ b },
+		"andn2": func(a, b int) int { return a & (1 - b) }, "orn2": func(a, b int) int { return a | (1 - b) },
+		"nand": func(a, b int) int { return 1 - (a & b) }, "nor": func(a, b int) int { return 1 - (a | b) }, "xnor": func(a, b int) int { return 1 - (a ^ b) },
+		"not": func(a, b int) int { return 1 - a },
+	}
+	seen10 := map[string]bool{}
+	for _, h := range handlers {
+		for _, iname := range h.insts {
+			m := bitName.FindStringSubmatch(iname)
+			if m == nil || seen10[h.alu.pkg+"."+h.name+"|"+m[1]+m[2]] {
+				continue
+			}
+			seen10[h.alu.pkg+"."+h.name+"|"+m[1]+m[2]] = true
+			fn := c.SSAFunc(h.alu.pkg, h.alu.typ+"."+h.name)
+			if fn == nil {
+				continue
+			}
+			saveexec := m[2] != ""
+			var eval func(v ssa.Value, a, b, depth int) int // -1 unknown
+			eval = func(v ssa.Value, a, b, depth int) int {
+				if depth > 12 {
+					return -1
+				}
+				if k, ok := v.(*ssa.Const); ok && k.Value != nil {
+					if u, isU := core.ConstUint(v); isU {
+						if u == 0 {
+							return 0
+						}
+						if u == 0xffffffff || u == 0xffffffffffffffff {
+							return 1
+						}
+					}
+					if i, isI := core.ConstInt(v); isI && i == -1 {
+						return 1
+					}
+					return -1
+				}
+				switch t := v.(type) {
+				case *ssa.Convert:
+					return eval(t.X, a, b, depth+1)
+				case *ssa.ChangeType:
+					return eval(t.X, a, b, depth+1)
+				case *ssa.UnOp:
+					if t.Op == token.XOR {
+						if x := eval(t.X, a, b, depth+1); x >= 0 {
+							return 1 - x
+						}
+					}
+					return -1
+				case *ssa.BinOp:
+					x, y := eval(t.X, a, b, depth+1), eval(t.Y, a, b, depth+1)
+					if x < 0 || y < 0 {
+						return -1
+					}
+					switch t.Op {
+					case token.AND:
+						return x & y
+					case token.OR:
+						return x | y
+					case token.XOR:
+						return x ^ y
+					case token.AND_NOT:
+						return x & (1 - y)
+					}
+					return -1
+				case *ssa.Call:
+					name, cc := stateMethod(t)
+					switch name {
+					case "ReadOperand":
+						pv := prov.Of(cc.Args[0])
+						if strings.HasSuffix(pv, ".Src0") {
+							return a
+						}
+						if strings.HasSuffix(pv, ".Src1") && !saveexec {
+							return b
+						}
+					case "EXEC":
+						if saveexec {
+							return b
+						}
+					}
+					return -1
+				}
+				return -1
+			}
+			for _, blk := range fn.Blocks {
+				for _, in := range blk.Instrs {
+					name, cc := stateMethod(in)
+					var val ssa.Value
+					if !saveexec && name == "WriteOperand" && strings.HasSuffix(prov.Of(cc.Args[0]), ".Dst") {
+						val = cc.Args[len(cc.Args)-1]
+					}
+					if saveexec && name == "SetEXEC" {
+						val = cc.Args[0]
+					}
+					if val == nil {
+						continue
+					}
+					got, want := "", ""
+					for _, ab := range [][2]int{{0, 0}, {0, 1}, {1, 0}, {1, 1}} {
+						r := eval(val, ab[0], ab[1], 0)
+						if r < 0 {
+							got = "?"
+							break
+						}
+						got += fmt.Sprint(r)
+						want += fmt.Sprint(bitFn[m[1]](ab[0], ab[1]))
+					}
+					if got == "?" {
+						st10.Sample("%s.%s (%s): written value %s is not a pure bitwise expression of the operands; not modelled", h.alu.typ, h.name, iname, short(prov.Of(val)))
+						continue
+					}
+					st10.Instances++
+					c.MarkAnalysed(fn)
+					st10.Ob(got == want)
+					st10.Sample("%s.%s (%s): truth table (S0,S1 = 00 01 10 11) %s, prescribed %s", h.alu.typ, h.name, iname, got, want)
+					if got != want {
+						c.ReportAt("R03.10", fn, in.Pos(), "bitwise-table:"+m[1]+m[2], fmt.Sprintf("%s computes, per bit, the truth table %s for (S0,S1) = 00,01,10,11; %s prescribes %s", h.name, got, iname, want))
+					}
+				}
+			}
+		}
+	}
+
 	// ---------------- R03.2 shift-amount masking ----------------
 	st2 := c.Rule("R03.2", "in handlers of shift instructions (tied to their names through decode table -> dispatch switch -> callee) every data-dependent shift amount is confined to [0, W-1] (W from the instruction name) by a mask or modulus before it reaches the Go shift, because Go saturates where the ISA uses the low 4/5/6 bits", 15)
 	seenH := map[string]bool{}
